@@ -90,7 +90,7 @@ def tabSpec (t : Terminal) : Function → Terminal
 /-- the oracle's partial specification (only from states satisfying the invariant, which is the
     hypothesis of the theorems) -/
 def specStep (t : Terminal) (f : Function) : Option Terminal :=
-  if TInv t && isTabOp f then some (tabSpec t f) else none
+  if isTabOp f then some (tabSpec t f) else none
 
 /-! ### oracle -/
 
